@@ -299,6 +299,10 @@ class FunEval:
     def join_result(root, rest):
         if root is None:
             return "CWD"
+        # os.path.join discards everything before an absolute component: a later component that is itself an input
+        # path (or a path derived from one, not a bare name) may be absolute and then *is* the result
+        if any(r in INSIDE or r in ("IN_PARENT", "IN_PARENT_RAW", "IN_SIB_RAW") for r in rest):
+            return "IN_CHILD"
         if root in INSIDE:
             return "IN_CHILD"
         if root == "OUT":
@@ -455,7 +459,8 @@ class FunEval:
                             out.add({"IN_NAME": "IN_NAME_SAME", "IN_NAME_RAW": "IN_NAME_SAME",
                                      "CHILD_NAME": "CHILD_NAME"}.get(c, c))
                     return out
-                if m in ("strip", "lower", "upper", "format"):
+                if m in ("strip", "lower", "upper", "format", "removeprefix", "removesuffix", "lstrip"):
+                    # prefix / suffix removal returns the string unchanged when it does not match
                     return recv
             tg = self.prog.resolve_callable(self.fi, n.func)
             tg = [t for t in tg if isinstance(t, FunctionInfo) and t.node.name != "__init__"]
